@@ -250,6 +250,7 @@ def regular_file_obligations(ctx, rep, rule="R12c"):
     if ge is not None:
         todo.extend((m, ge) for m in ge.methods.values())
     seen_sites = set()
+    _callers_cache = {}
     for m, C in todo:
         if vfsbase is not None and m.cls is not None and prog.is_subclass(m.cls, vfsbase):
             continue
@@ -264,8 +265,31 @@ def regular_file_obligations(ctx, rep, rule="R12c"):
                 sites.append(call)
         if not sites:
             continue
-        paths = collect_site_paths(prog, ctx.resolver, m, C, {id(c) for c in sites},
-                                   inline=lambda fn, t, d: False)
+        # a helper that is only called by other methods of the class is judged where it is called (walked as part of the
+        # caller, so the caller's tests count); it is analysed on its own only when nothing in the class calls it
+        root, inline_fn = m, None
+        if m.cls is not None:
+            cmap = _callers_cache.get(C)
+            if cmap is None:
+                cmap = {}
+                for c2 in prog.mro(C):
+                    for m2 in c2.methods.values():
+                        if prog.resolve_method(C, m2.name) is not m2:
+                            continue
+                        for call2, t2 in eff.calls_of(m2, C):
+                            if t2.kind == "repo" and t2.bound_cls is not None:
+                                for g2 in t2.funcs:
+                                    if g2 is not m2:
+                                        cmap.setdefault(g2, []).append(m2)
+                _callers_cache[C] = cmap
+            callers = list(dict.fromkeys(cmap.get(m, [])))
+            # (tried only when the method on its own shows no evidence: see `rerooted` below)
+            single_caller = callers[0] if len(callers) == 1 and not m.name.startswith("__") \
+                and m.name not in ("write", "prepare", "getentry", "canhandlerequest", "getdirlist") else None
+        else:
+            single_caller = None
+        paths = collect_site_paths(prog, ctx.resolver, m, C, {id(c) for c in sites}, inline=lambda fn, t, d: False)
+        rerooted = None
         is_handler = hb is not None and prog.is_subclass(C, hb)
         acc = accept_paths(prog, ctx.resolver, C) if is_handler and m.name not in ("__init__", "canhandlerequest", "isrequestsecure") else None
         for call in sites:
@@ -274,55 +298,63 @@ def regular_file_obligations(ctx, rep, rule="R12c"):
             if ptxt0 in ("self.cachename",):
                 rep.ok(rule, f"{m.qualname}: {norm(call)[:50]}", ctx.where(m, call), "the server's own cache file", nontrivial=False)
                 continue
-            lp = paths.get(id(call))
-            problems = []
-            if lp is None:
-                problems.append("could not enumerate the paths to this open()")
-            for facts, evs, defs in (lp or []):
-                ptxt = _textnorm(expand(call.args[0], m, defs))
-                own_selector = ptxt in ("self.getselector()", "self.selector", "self.selectorreal") or ptxt0 in ("self.getselector()", "self.selector")
+            def judge(lp):
+                problems = []
+                if lp is None:
+                    problems.append("could not enumerate the paths to this open()")
+                for facts, evs, defs in (lp or []):
+                    ptxt = _textnorm(expand(call.args[0], m, defs))
+                    own_selector = ptxt in ("self.getselector()", "self.selector", "self.selectorreal") or ptxt0 in ("self.getselector()", "self.selector")
 
-                def evidence(fs):
-                    for f in fs:
-                        if not f.truth:
-                            continue
-                        n = f.node
-                        ftxt = expand(n, f.func, f.defs)
-                        if isinstance(n, ast.Call) and isinstance(n.func, ast.Attribute) and n.func.attr == "isfile" and n.args:
-                            atxt = _textnorm(expand(n.args[0], f.func, f.defs))
-                            if atxt == ptxt or _textnorm(norm(n.args[0])) == _textnorm(ptxt0):
+                    def evidence(fs):
+                        for f in fs:
+                            if not f.truth:
+                                continue
+                            n = f.node
+                            ftxt = expand(n, f.func, f.defs)
+                            if isinstance(n, ast.Call) and isinstance(n.func, ast.Attribute) and n.func.attr == "isfile" and n.args:
+                                atxt = _textnorm(expand(n.args[0], f.func, f.defs))
+                                if atxt == ptxt or _textnorm(norm(n.args[0])) == _textnorm(ptxt0):
+                                    return True
+                            if own_selector and "S_ISREG(" in ftxt and "self.statresult" in ftxt:
                                 return True
-                        if own_selector and "S_ISREG(" in ftxt and "self.statresult" in ftxt:
-                            return True
-                    return False
+                        return False
 
-                if evidence(facts):
-                    continue
-                if acc:
-                    # accepting paths of the handler's own test that are compatible with what this path has decided
-                    local = {}
-                    for f in facts:
-                        local.setdefault(_textnorm(expand(f.node, f.func, f.defs)), set()).add(bool(f.truth))
-                    compatible = []
-                    for af, _ in acc:
-                        import re as _re
+                    if evidence(facts):
+                        continue
+                    if acc:
+                        # accepting paths of the handler's own test that are compatible with what this path has decided
+                        local = {}
+                        for f in facts:
+                            local.setdefault(_textnorm(expand(f.node, f.func, f.defs)), set()).add(bool(f.truth))
+                        compatible = []
+                        for af, _ in acc:
+                            import re as _re
 
-                        kinds = {}
-                        for a in af:
-                            mm = _re.fullmatch(r"stat\.S_IS(DIR|REG|LNK|FIFO|SOCK|CHR|BLK)\((.*)\)", expand(a.node, a.func, a.defs))
-                            if mm and a.truth:
-                                kinds.setdefault(mm.group(2), set()).add(mm.group(1))
-                        if any(len(v) > 1 for v in kinds.values()):
-                            continue  # a file is of exactly one kind: this combination of outcomes cannot happen
-                        clash = any((not bool(a.truth)) in local.get(_textnorm(expand(a.node, a.func, a.defs)), ()) and
-                                    bool(a.truth) not in local.get(_textnorm(expand(a.node, a.func, a.defs)), ()) for a in af)
-                        if not clash:
-                            compatible.append(af)
-                    if all(evidence(af) for af in compatible):
-                        continue  # (no compatible accepting path: this path cannot be taken by a handler that was chosen)
-                problems.append(f"`{ptxt0}` can be opened without having been shown to be a regular file "
-                                "(a FIFO of that name blocks the request for ever; one such entry makes its directory unlistable)")
-                break
+                            kinds = {}
+                            for a in af:
+                                mm = _re.fullmatch(r"stat\.S_IS(DIR|REG|LNK|FIFO|SOCK|CHR|BLK)\((.*)\)", expand(a.node, a.func, a.defs))
+                                if mm and a.truth:
+                                    kinds.setdefault(mm.group(2), set()).add(mm.group(1))
+                            if any(len(v) > 1 for v in kinds.values()):
+                                continue  # a file is of exactly one kind: this combination of outcomes cannot happen
+                            clash = any((not bool(a.truth)) in local.get(_textnorm(expand(a.node, a.func, a.defs)), ()) and
+                                        bool(a.truth) not in local.get(_textnorm(expand(a.node, a.func, a.defs)), ()) for a in af)
+                            if not clash:
+                                compatible.append(af)
+                        if all(evidence(af) for af in compatible):
+                            continue  # (no compatible accepting path: this path cannot be taken by a handler that was chosen)
+                    problems.append(f"`{ptxt0}` can be opened without having been shown to be a regular file "
+                                    "(a FIFO of that name blocks the request for ever; one such entry makes its directory unlistable)")
+                    break
+                return problems
+
+            problems = judge(paths.get(id(call)))
+            if problems and single_caller is not None:
+                # the helper on its own shows no evidence: judge it as part of its only caller
+                if rerooted is None:
+                    rerooted = collect_site_paths(prog, ctx.resolver, single_caller, C, {id(c) for c in sites}, inline=lambda fn, t, d, _m=m: fn is _m)
+                problems = judge(rerooted.get(id(call)))
             owner = f"{C.name}:" if C is not m.cls and m.cls is not None else ""
             rep.add(rule, f"{owner}{m.qualname}: {norm(call)[:50]}", not problems, ctx.where(m, call), "; ".join(problems),
                     key=f"{rule}|{owner}{m.qualname}|{ptxt0}")
